@@ -438,3 +438,65 @@ def run(ctx):  # noqa: F811
     # a resumed run must see the same seeds as the uninterrupted one (shared with C21)
     from .c21 import r21_9
     r21_9(ctx, ctx.model, rid="R25.5")
+
+
+def r25_6(ctx, m):
+    from ..util import cfg_of
+    fi = m.func(MOD, "optimize_kl")
+    ctx.saw_func(fi)
+    ctx.rule("R25.6", "resume reads the saved state as a fact about the LAST FINISHED iteration: a condition that selects how the saved "
+                      "sample list is loaded (residual list vs single point estimate) probes the files of that iteration or evaluates "
+                      "options at last_finished_index - never at the index to resume, whose schedule entry may differ (MAP -> sampling)", floor=1)
+    n = 0
+    for st in walk_no_nested(fi.node):
+        if not isinstance(st, ast.If):
+            continue
+        loads = [c for b in st.body + st.orelse for c in ast.walk(b) if isinstance(c, ast.Call) and call_name(c) in ("load", "load_mean")
+                 and isinstance(c.func, ast.Attribute) and "SampleList" in src(c.func.value)]
+        if not loads:
+            continue
+        # only the innermost test that selects between loaders
+        if any(isinstance(x, ast.If) and x is not st and any(c in list(ast.walk(x)) for c in loads) for b in st.body + st.orelse for x in ast.walk(b)):
+            continue
+        n += 1
+        t = src(st.test)
+        bad = "initial_index" in t
+        ctx.check("R25.6", f"{fi.key}::`if {short(st.test, 60)}` selects the loader from facts about the saved iteration", not bad,
+                  f"`{t}` evaluates the schedule at the iteration to resume; the files on disk belong to iteration last_finished_index" if bad else None, fi, st)
+    if not n:
+        ctx.und("R25.6", f"{fi.key}::loader selection", "no test guarding SampleList loads found", fi)
+
+
+_run_c25c = run
+
+
+def run(ctx):  # noqa: F811
+    _run_c25c(ctx)
+    r25_6(ctx, ctx.model)
+
+
+def r25_7(ctx, m):
+    mod = m.module(MOD)
+    ctx.rule("R25.7", "the driver never deletes a committed file: no os.remove / unlink / rmtree / shutil.move in optimize_kl.py targets "
+                      "anything but a temporary (*.tmp) name - the marker of iteration k-1 still names the files of iteration k-1 "
+                      "until the marker of k is committed, whatever 'superseded' them in the meantime", floor=1)
+    n = 0
+    for fi in mod.all_functions:
+        for c in walk_no_nested(fi.node):
+            if isinstance(c, ast.Call) and call_name(c) in ("remove", "unlink", "rmtree", "removedirs", "rmdir", "move", "truncate"):
+                n += 1
+                ctx.saw_func(fi)
+                a = src(c.args[0]) if c.args else src(c.func)
+                tmp = "tmp" in a.lower()
+                ctx.check("R25.7", f"{fi.key}::`{short(c, 60)}` removes a temporary file only", tmp,
+                          None if tmp else f"`{a}` is not a temporary name: a crash before the next marker commit leaves the marker pointing at a missing file", fi, c)
+    if not n:
+        ctx.ok("R25.7", f"{mod.relpath}::no file is ever deleted", "no remove/unlink/rmtree/move call in the module", mod.relpath)
+
+
+_run_c25d = run
+
+
+def run(ctx):  # noqa: F811
+    _run_c25d(ctx)
+    r25_7(ctx, ctx.model)
